@@ -16,8 +16,9 @@ EXTENDS EventFilter
 
 CONSTANTS NSub, Cad, Offs, SlotKinds, ChanKinds, Tops, Recs, PropFlags
 
-VARIABLES T, o, R
-vars == <<T, o, R>>
+VARIABLES T, o, R,
+          ref      \* derived: the reference listing of (T, o, R) forward and reversed - computed once per state
+vars == <<T, o, R, ref>>
 
 Slots == (1..NSub) \X Offs
 SlotSeq == SetToSortSeq(Slots, LAMBDA a, b : a[1] < b[1] \/ (a[1] = b[1] /\ a[2] < b[2]))
@@ -41,14 +42,16 @@ Roots == {[top |-> tp, mem |-> <<1>>] : tp \in Tops}
 
 Times == (-1)..(NSub * Cad)
 Opts == {[drf |-> a, dmd |-> b, dp |-> p, mp |-> q, rec |-> rc, rev |-> rv, hs |-> hs, s |-> s, he |-> he, e |-> e] :
-           a \in BOOLEAN, b \in BOOLEAN, p \in PropFlags, q \in PropFlags, rc \in Recs, rv \in BOOLEAN,
+           a \in BOOLEAN, b \in BOOLEAN, p \in PropFlags, q \in PropFlags, rc \in Recs, rv \in {FALSE},
            hs \in BOOLEAN, s \in Times, he \in BOOLEAN, e \in Times}
 GoodOpt(x) == /\ (~x.hs => x.s = 0) /\ (~x.he => x.e = 0)        \* canonical when absent
               /\ ((x.hs /\ x.he) => x.s <= x.e)                  \* precondition: start <= end
 
 \* TLC evaluates initial states on one thread: only the trees are initial, the options are reached by steps
 Base == [drf |-> TRUE, dmd |-> TRUE, dp |-> 2, mp |-> 2, rec |-> FALSE, rev |-> FALSE, hs |-> FALSE, s |-> 0, he |-> FALSE, e |-> 0]
-Init == T \in Trees /\ R \in Roots /\ o = [Base EXCEPT !.rec = (FALSE \in Recs)]
+Both(t, x, r) == [fwd |-> RefList(t, [x EXCEPT !.rev = FALSE], r, FALSE), bwd |-> RefList(t, [x EXCEPT !.rev = TRUE], r, FALSE)]
+Init == /\ T \in Trees /\ R \in Roots /\ o = [Base EXCEPT !.rec = (FALSE \notin Recs)]
+        /\ ref = Both(T, o, R)
 
 NoWindow(x) == ~x.hs /\ ~x.he
 SetFlags     == /\ NoWindow(o) /\ o' \in {x \in Opts : GoodOpt(x) /\ NoWindow(x)} /\ UNCHANGED <<T, R>>
@@ -60,23 +63,24 @@ StartEarlier == o.hs /\ o.s - 1 \in Times /\ o' = [o EXCEPT !.s = @ - 1] /\ UNCH
 DropStart    == o.hs /\ o' = [o EXCEPT !.hs = FALSE, !.s = 0] /\ UNCHANGED <<T, R>>
 EndLater     == o.he /\ o.e + 1 \in Times /\ o' = [o EXCEPT !.e = @ + 1] /\ UNCHANGED <<T, R>>
 DropEnd      == o.he /\ o' = [o EXCEPT !.he = FALSE, !.e = 0] /\ UNCHANGED <<T, R>>
-Next == SetFlags \/ SetStart \/ SetEnd \/ StartEarlier \/ DropStart \/ EndLater \/ DropEnd
+Step == SetFlags \/ SetStart \/ SetEnd \/ StartEarlier \/ DropStart \/ EndLater \/ DropEnd
+Next == Step /\ ref' = Both(T', o', R')
 Spec == Init /\ [][Next]_vars
 
 (***************************************************************************)
 (* Theorems of the functional specification on the bounded universe        *)
 (***************************************************************************)
-Ref(opt)  == RefList(T, opt, R, FALSE)
-Listed    == RSet(Ref(o).seq)
+Listed    == RSet(ref.fwd.seq)
+Rev(x)    == [x EXCEPT !.rev = TRUE]
 
 UniverseConsistent == TimeConsistent(T)
 
-\* the repaired subdirectory walk computes what the set-theoretic specification demands
-RefCorrect == ~Ref(o).raised /\ Judge(T, o, R, {}, Ref(o).seq) = {}
+\* the repaired subdirectory walk computes what the set-theoretic specification demands, in both directions
+RefCorrect == /\ ~ref.fwd.raised /\ Judge(T, o, R, {}, ref.fwd.seq) = {}
+              /\ ~ref.bwd.raised /\ Judge(T, Rev(o), R, {}, ref.bwd.seq) = {}
 
-\* reversing changes only the order, not the set; and exactly reverses the order of a one-channel tree
-ReverseOnlyOrder == LET a == Ref([o EXCEPT !.rev = FALSE]).seq  b == Ref([o EXCEPT !.rev = TRUE]).seq IN
-                    RSet(a) = RSet(b) /\ Len(a) = Len(b)
+\* reversing changes only the order, not the set
+ReverseOnlyOrder == RSet(ref.fwd.seq) = RSet(ref.bwd.seq) /\ Len(ref.fwd.seq) = Len(ref.bwd.seq)
 
 \* sound: only finalized, well-formed files at the right depth of a reachable channel directory
 ListSubsetOfFiles == \A i \in Listed : i \in LFs(T) /\ (DataName(LF(T, i)) \/ PropName(LF(T, i)))
@@ -117,7 +121,7 @@ SameFlags(x, y) == [x EXCEPT !.hs = FALSE, !.s = 0, !.he = FALSE, !.e = 0] = [y 
 Wider(x, y) == /\ SameFlags(x, y)
                /\ (y.hs => (x.hs /\ y.s <= x.s))
                /\ (y.he => (x.he /\ y.e >= x.e))
-WindowMonotone == [][Wider(o, o') => Listed \subseteq RSet(RefList(T', o', R', FALSE).seq)]_vars
+WindowMonotone == [][Wider(o, o') => RSet(ref.fwd.seq) \subseteq RSet(ref'.fwd.seq)]_vars
 
 (***************************************************************************)
 (* Witnesses - each MUST be violated (vacuity guards)                      *)
@@ -129,16 +133,17 @@ W_NoLookBackAcrossEmptySubdir ==
                                             /\ FilesOfSub(T, Sel(T, o, R, {}), s) = <<>>
                                             /\ \E s2 \in 1..NSub : T.subs[s2].t > T.subs[s].t /\ T.subs[s2].t <= o.s)
 \* Judge tells the repaired walk from the walk with defect F05 (forward fill keyed on the first *enumerated* subdirectory)
-W_JudgeBlindToF05 == LET b == RefList(T, o, R, TRUE) IN (o.rev /\ ~b.raised) => Judge(T, o, R, {}, b.seq) = {}
+W_JudgeBlindToF05 == LET b == RefList(T, Rev(o), R, TRUE) IN ~b.raised => Judge(T, Rev(o), R, {}, b.seq) = {}
 \* ... also as a difference between the forward and the reversed set
 W_F05SameSet == LET a == RefList(T, [o EXCEPT !.rev = FALSE], R, TRUE)  b == RefList(T, [o EXCEPT !.rev = TRUE], R, TRUE)
                 IN  (~a.raised /\ ~b.raised) => RSet(a.seq) = RSet(b.seq)
 \* the universe reaches the empty-first-subdirectory failure F06
 W_F06NeverRaises == ~RefList(T, o, R, TRUE).raised
 \* the subdirectory pruning is only right on time-consistent trees (run with an offset beyond the cadence)
-W_PruningRightOnAnyTree == RefCorrect
+W_PruningRightOnAnyTree == (o.hs \/ o.he) => Judge(T, o, R, {}, ref.fwd.seq) \subseteq {"C14-order-within-channel"}
 \* mixed channels and the open forward-fill choice are reached
 W_NoMixedChannel == LET S == Sel(T, o, R, {}) IN
   ~(\E c \in ChanCtx(T, o, R).dmd : o.hs /\ o.dmd /\ Mixed(T, o, S, c) /\ MdBef(T, o, S, c) # {})
+W_NoFinalizingRename == ~(\E i, j \in LFs(T) : o.hs /\ o.he /\ LF(T, i).tmp /\ Deliver(T.files, Ev("moved", i, j), o) = {Out("created", j, 0)})
 W_NoWindowSplitMove == \A i, j \in LFs(T) : Cardinality(Deliver(T.files, Ev("moved", i, j), o)) = 1
 =============================================================================
